@@ -85,6 +85,47 @@ func c07Programs(tier string) []string {
 	return ps
 }
 
+// extension functions applied to every kind of value (the extensions package's harness runs extensions.Init)
+var c07ExtNames = []string{"pow", "sprintf", "sin", "cos", "tan", "ln", "sqrt", "exp", "asin", "acos", "atan", "log10", "floor", "ceil", "trunc", "round", "atan2", "rand",
+	"type", "eval", "unjson", "format", "defun", "runes", "rune_len", "width", "split", "join", "trim", "trim_left", "trim_right",
+	"min", "max", "int", "load", "save"}
+
+func c07ExtPrograms(tier string) []string {
+	kinds := []string{"a", "x", "p", "nil", `"ab"`, `""`, "[]", "[a,1]", "{}", `{"k":a}`, "func(y){y}", "-1", "0", `"%d %s %v"`, `"("`, `"1+"`, `"{\"k\":[1,2.5,null]}"`}
+	small := []string{"a", "x", `"ab"`, "nil", "[a,1]", `"("`, "0", "p"}
+	var ps []string
+	for _, f := range c07ExtNames {
+		ps = append(ps, f+"()")
+		for _, k := range kinds {
+			ps = append(ps, f+"("+k+")")
+		}
+		for i, k1 := range small {
+			for j, k2 := range small {
+				if tier != "thorough" && (i+j)%2 == 1 {
+					continue
+				}
+				ps = append(ps, f+"("+k1+", "+k2+")")
+			}
+		}
+	}
+	for _, f := range []string{"sprintf", "split", "min", "max", "join"} {
+		for _, k1 := range small[:5] {
+			for _, k2 := range small[:5] {
+				for _, k3 := range small[:5] {
+					ps = append(ps, f+"("+k1+", "+k2+", "+k3+")")
+				}
+			}
+		}
+	}
+	ps = append(ps, `sprintf("%d %s %v %5.2f %q %x %c %U %t %p %%", a, "s", x, x, "q", a, a, a, p, a)`, `sprintf("%*d", a, b)`, `sprintf("%[3]d", a)`, `sprintf("%!", a)`,
+		`eval("1+")`, `eval("a+b")`, `eval("eval(\"1\")")`, `unjson("[1,{\"a\":null}]")`, `unjson("{")`, `format(func(q){q+a})`,
+		`defun("f", ["u"], [quote(u+1)])`, `defun(a, x, p)`, `int(x)`, `int("0x1F")`, `int("9223372036854775808")`, `round(x)`, `trunc(x)`, `pow(x, y)`, `pow(a, b)`, `atan2(x, y)`,
+		`min()`, `max(a)`, `min(a, x, "s", nil, [a])`, `split("a,b", "")`, `join([a, x, nil], ",")`, `join(["a", ["b"]], a)`, `runes("a\xffb", p)`, `width("\xff\xfe")`,
+		`trim("ab", "")`, 
+		`load("../x")`, `save(a)`, `type(type)`, `type(quote(a))`)
+	return ps
+}
+
 func init() {
 	register(&PropSpec{
 		ID: "C07",
@@ -105,13 +146,17 @@ func init() {
 					}
 				}
 			}
+			for _, p := range c07ExtPrograms(tier) {
+				jobs = append(jobs, Job{Prop: "C07", Pkg: "extensions", Func: "VerifExtNoPanic", Args: []string{p}, MaxDec: 300, MaxSteps: 6_000_000})
+			}
 			return jobs
 		},
 		Budget: map[string]time.Duration{"quick": 8 * time.Minute, "thorough": 60 * time.Minute},
 		Reach:  []string{"value", "language-level error", "resource guard"},
 		Bounds: map[string]interface{}{"skeletons": "every infix operator x every ordered pair of 14 operand kinds; every prefix/postfix operator, index, slice, dot, index-assignment, del, builtin (1 and 2 arguments), call, for, if, function/variadic/macro argument x every kind; plus a list of loop, recursion, macro and boundary programs (see engine/props_c07.go)",
+			"extensions": "35 extension functions (math, sprintf, eval, unjson, format, defun, type, string functions, min/max, int, load/save restricted) applied to 0 arguments, to each of 17 kinds of value, to half of the ordered pairs of 8 kinds (all pairs thorough), 5 of them to all triples of 5 kinds, plus ~50 boundary calls; a, b all int64, x, y all float64, p both booleans; strings concrete; math functions on symbolic floats are uninterpreted; not included (they need package state the executor does not initialise or the real clock / processes): rand, json, json_go, regexp, regsub, base64, time.*, sleep, read, exec, run, image.*",
 			"values": "all int64 for a,b,c; all float64 for x,y; both booleans; all 2-byte strings for s",
 			"depth":  "MaxDepth 60; loops whose trip count is symbolic are explored up to the executor's value-enumeration limit (64) and reported as bound-exceeded beyond"},
-		Outside: []string{"programs deeper than one operator over the listed operand kinds", "extension functions (need extensions.Init; covered for argument validation by the repl-package harness when built)", "byte-level mutations of the shipped examples"},
+		Outside: []string{"programs deeper than one operator over the listed operand kinds", "byte-level mutations of the shipped examples"},
 	})
 }
